@@ -81,28 +81,35 @@ Proof.
     + rewrite lookup_insert_ne by congruence. apply Hp.
 Qed.
 
+Lemma pos_bal_getb b k : pos_bal b -> 0 <= getb b k.
+Proof.
+  intros Hp. unfold getb. destruct (b !! k) as [v|] eqn:E; cbn; [|lia].
+  specialize (Hp k v E). lia.
+Qed.
+
 Lemma change_balance_spec b id d b' :
   change_balance b id d = Some b' ->
-  0 <= getb b id + d /\ bsum b' = bsum b + d /\
+  (pos_bal b -> 0 <= getb b id + d) /\ bsum b' = bsum b + d /\
   (forall j, getb b' j = if decide (j = id) then getb b id + d else getb b j) /\
   (pos_bal b -> pos_bal b').
 Proof.
-  unfold change_balance, getb. destruct (d =? 0) eqn:Ed.
-  - apply Z.eqb_eq in Ed. subst d. intros [= <-]. splits; try lia.
+  unfold change_balance. fold (getb b id). destruct (d =? 0) eqn:Ed.
+  - apply Z.eqb_eq in Ed. subst d. intros [= <-]. splits.
+    + intros Hp. pose proof (pos_bal_getb b id Hp). lia.
+    + lia.
     + intros j. destruct (decide (j = id)) as [->|]; lia.
     + auto.
-    + intros Hp. specialize (Hp id). destruct (b !! id) as [v|]; cbn; [specialize (Hp v eq_refl)|]; lia.
-  - destruct (default 0 (b !! id) + d <? 0) eqn:En; [discriminate|].
+  - destruct (getb b id + d <? 0) eqn:En; [discriminate|].
     apply Z.ltb_ge in En. intros [= <-]. splits.
-    + exact En.
-    + rewrite set_or_delete_sum. unfold getb. lia.
-    + intros j. rewrite set_or_delete_lookup. reflexivity.
+    + intros _. exact En.
+    + rewrite set_or_delete_sum. lia.
+    + intros j. unfold getb. rewrite set_or_delete_lookup. reflexivity.
     + intros Hp. apply set_or_delete_pos; assumption.
 Qed.
 
 Lemma make_transfer_spec b from to amount b' :
   0 <= amount -> make_transfer b from to amount = Some b' ->
-  amount <= getb b from /\ bsum b' = bsum b /\
+  (pos_bal b -> amount <= getb b from) /\ bsum b' = bsum b /\
   (from <> to -> forall j, getb b' j =
       if decide (j = from) then getb b from - amount
       else if decide (j = to) then getb b to + amount else getb b j) /\
@@ -112,14 +119,14 @@ Proof.
   intros Ha. unfold make_transfer. destruct (from =? to) eqn:Eft.
   - apply Z.eqb_eq in Eft. subst to. fold (getb b from).
     destruct (getb b from <? amount) eqn:El; [discriminate|]. apply Z.ltb_ge in El.
-    intros [= <-]. splits; auto; try lia. intros; congruence.
+    intros [= <-]. splits; auto; try lia; intros; congruence.
   - apply Z.eqb_neq in Eft.
     destruct (change_balance b from (- amount)) as [b1|] eqn:E1; [|discriminate].
     intros E2.
     apply change_balance_spec in E1 as (H1a & H1b & H1c & H1d).
     apply change_balance_spec in E2 as (H2a & H2b & H2c & H2d).
     splits.
-    + lia.
+    + intros Hp. specialize (H1a Hp). lia.
     + lia.
     + intros _ j. rewrite H2c.
       destruct (decide (j = to)) as [->|Hjt].
@@ -151,7 +158,7 @@ Record tk_effect (t t' : token) (dsupply : Z) : Prop := {
 
 Lemma tk_effect_inv t t' d : tk_effect t t' d -> tok_inv t -> tok_inv t'.
 Proof.
-  intros [Hs Hm Hb Hp] (I1 & I2 & I3). splits; [lia|lia|auto].
+  intros [Hs Hm Hb Hp] (I1 & I2 & I3). unfold tok_inv. splits; [lia|lia|auto].
 Qed.
 
 Lemma tk_mint_spec t to a ops t' :
@@ -164,26 +171,29 @@ Proof.
   apply negb_false_iff in E. apply valid_amount_spec in E as [Ha _].
   apply change_balance_spec in E0 as (H1 & H2 & H3 & H4).
   injection H as <-. cbn. splits; cbn; try lia; auto.
+  constructor; cbn; try lia; auto.
 Qed.
 
 Lemma tk_burn_spec t o a t' :
   tk_burn t o a = Ok t' ->
-  0 <= a /\ a <= balance_of t o /\ tk_effect t t' (- a) /\ minted t' = minted t /\ burnt t' = burnt t + a /\
+  0 <= a /\ (pos_bal (bal t) -> a <= balance_of t o) /\ tk_effect t t' (- a) /\ minted t' = minted t /\ burnt t' = burnt t + a /\
   (forall j, balance_of t' j = if decide (j = o) then balance_of t o - a else balance_of t j) /\
   allow t' = allow t.
 Proof.
   unfold tk_burn. intros H. rinv H.
   apply negb_false_iff in E. apply valid_amount_spec in E as [Ha _].
   apply change_balance_spec in E0 as (H1 & H2 & H3 & H4).
-  injection H as <-. cbn. unfold balance_of. fold (getb (bal t) o) in *.
-  splits; cbn; try lia; auto.
+  injection H as <-. unfold balance_of. fold (getb (bal t) o). cbn.
+  split; [exact Ha|]. split; [intros Hp; specialize (H1 Hp); lia|].
+  split; [constructor; cbn; try lia; auto|].
+  split; [reflexivity|]. split; [reflexivity|]. split; [|reflexivity].
   intros j. specialize (H3 j). unfold getb in *. destruct (decide (j = o)); lia.
 Qed.
 
 Lemma tk_transfer_spec t from to a t' :
   tk_transfer t from to a = Ok t' ->
-  0 <= a /\ valid_amount a = true /\ a <= balance_of t from /\ tk_effect t t' 0 /\
-  minted t' = minted t /\ burnt t' = burnt t /\ allow t' = allow t /\
+  0 <= a /\ valid_amount a = true /\ (pos_bal (bal t) -> a <= balance_of t from) /\ tk_effect t t' 0 /\
+  minted t' = minted t /\ burnt t' = burnt t /\ allow t' = allow t /\ supply t' = supply t /\
   (from <> to -> forall j, balance_of t' j =
       if decide (j = from) then balance_of t from - a
       else if decide (j = to) then balance_of t to + a else balance_of t j) /\
@@ -192,7 +202,10 @@ Proof.
   unfold tk_transfer. intros H. rinv H.
   apply negb_false_iff in E. pose proof (valid_amount_spec _ E) as [Ha _].
   apply (make_transfer_spec _ _ _ _ _ Ha) in E0 as (H1 & H2 & H3 & H4 & H5).
-  injection H as <-. cbn. splits; cbn; try lia; auto.
+  injection H as <-. unfold balance_of. cbn.
+  split; [exact Ha|]. split; [exact E|]. split; [exact H1|].
+  split; [constructor; cbn; try lia; auto|].
+  splits; try reflexivity; auto.
 Qed.
 
 Lemma use_allowance_spec al operator owner a al' :
@@ -210,7 +223,8 @@ Proof.
     + apply Z.eqb_neq in E1. contradiction.
     + apply negb_false_iff, Z.eqb_eq in E1. contradiction.
   - intros k Hk. unfold change_allowance. destruct (- a =? 0); [reflexivity|].
-    unfold set_or_delete. destruct (_ =? 0).
+    unfold set_or_delete.
+    match goal with |- (if ?c then _ else _) !! _ = _ => destruct c end.
     + rewrite lookup_delete_ne by congruence. reflexivity.
     + rewrite lookup_insert_ne by congruence. reflexivity.
 Qed.
@@ -236,3 +250,886 @@ Qed.
 Lemma tk_effect_set_allow t t' d al :
   tk_effect t (tk_set_allow t' al) d -> tk_effect t t' d.
 Proof. intros [A B C D]. constructor; auto. Qed.
+
+(* ---------- deleting a list of keys ---------- *)
+Fixpoint del_all {A} (m : gmap (Z * Z) A) (ks : list (Z * Z)) : gmap (Z * Z) A :=
+  match ks with [] => m | k :: r => del_all (delete k m) r end.
+
+Lemma del_all_lookup {A} (m : gmap (Z * Z) A) ks k :
+  del_all m ks !! k = if decide (k ∈ ks) then None else m !! k.
+Proof.
+  revert m. induction ks as [|k0 r IH]; intros m; cbn.
+  - destruct (decide (k ∈ [])) as [Hin|]; [inversion Hin|reflexivity].
+  - rewrite IH. destruct (decide (k ∈ r)) as [Hr|Hr].
+    + destruct (decide (k ∈ k0 :: r)) as [|Hn]; [reflexivity|]. exfalso. apply Hn. right. exact Hr.
+    + destruct (decide (k = k0)) as [->|Hne].
+      * rewrite lookup_delete. destruct (decide (k0 ∈ k0 :: r)) as [|Hn]; [reflexivity|].
+        exfalso. apply Hn. left.
+      * rewrite lookup_delete_ne by congruence.
+        destruct (decide (k ∈ k0 :: r)) as [Hin|]; [|reflexivity].
+        inversion Hin; subst; contradiction.
+Qed.
+
+Lemma del_all_app {A} (m : gmap (Z * Z) A) k1 k2 : del_all m (k1 ++ k2) = del_all (del_all m k1) k2.
+Proof. revert m. induction k1; intros m; cbn; auto. Qed.
+
+Definition vsum {A} (f : A -> Z) (m : gmap (Z * Z) A) (ks : list (Z * Z)) : Z :=
+  sumZ (map (fun k => from_option f 0 (m !! k)) ks).
+
+Lemma sumZ_app l1 l2 : sumZ (l1 ++ l2) = sumZ l1 + sumZ l2.
+Proof. unfold sumZ. induction l1 as [|x r IH]; cbn [fold_right app]; lia. Qed.
+
+Lemma sumZ_cons x l : sumZ (x :: l) = x + sumZ l.
+Proof. reflexivity. Qed.
+
+Lemma vsum_app {A} (f : A -> Z) m k1 k2 : vsum f m (k1 ++ k2) = vsum f m k1 + vsum f m k2.
+Proof. unfold vsum. rewrite map_app, sumZ_app. reflexivity. Qed.
+
+Lemma del_all_msum {A} (f : A -> Z) (m : gmap (Z * Z) A) ks :
+  NoDup ks -> msum f (del_all m ks) = msum f m - vsum f m ks.
+Proof.
+  revert m. induction ks as [|k r IH]; intros m Hnd.
+  - unfold vsum; cbn. lia.
+  - inversion Hnd as [|? ? Hnin Hnd']; subst. cbn [del_all]. rewrite IH by exact Hnd'.
+    rewrite msum_delete'. unfold vsum. cbn [map]. rewrite sumZ_cons.
+    assert (Heq : map (fun k0 => from_option f 0 (delete k m !! k0)) r
+                = map (fun k0 => from_option f 0 (m !! k0)) r).
+    { apply map_ext_in. intros k0 Hk0. rewrite lookup_delete_ne; [reflexivity|].
+      intros ->. apply Hnin. exact Hk0. }
+    rewrite Heq. lia.
+Qed.
+
+(* ---------- claim_allocations ---------- *)
+Definition asum (al : gmap (Z * Z) alloc) : Z := msum a_size al.
+
+Definition claim_key (x : Z * claim) : Z * Z := (c_client (snd x), fst x).
+
+Lemma can_claim_alloc_spec c p a e x :
+  can_claim_alloc c p a e x = true <->
+  p = a_provider a /\ ac_client c = a_client a /\ ac_data c = a_data a /\ ac_size c = a_size a /\
+  e <= a_exp a /\ a_tmin a <= x - e <= a_tmax a.
+Proof.
+  unfold can_claim_alloc. rewrite !andb_true_iff, !Z.eqb_eq, !Z.leb_le. tauto.
+Qed.
+
+(* what the validation loop of one sector group establishes *)
+Definition group_ok (al : gmap (Z * Z) alloc) (p e s x : Z) (c : aclaim) (n : Z * claim) : Prop :=
+  fst n = ac_id c /\
+  exists a, al !! (ac_client c, ac_id c) = Some a /\ can_claim_alloc c p a e x = true /\
+            snd n = mk_claim p e s a.
+
+Lemma group_new_claims_spec al p e s x cs news :
+  group_new_claims al p e s x cs = Ok news -> Forall2 (group_ok al p e s x) cs news.
+Proof.
+  revert news. induction cs as [|c r IH]; intros news H; cbn in H.
+  - injection H as <-. constructor.
+  - rinv H. injection H as <-. apply negb_false_iff in E0. constructor.
+    + split; [reflexivity|]. eexists; eauto.
+    + apply IH. reflexivity.
+Qed.
+
+Lemma group_ok_key al p e s x c n :
+  group_ok al p e s x c n ->
+  exists a, al !! claim_key n = Some a /\ a_size a = c_size (snd n) /\ claim_key n = (ac_client c, ac_id c).
+Proof.
+  intros (Hid & a & Ha & Hc & Hn). apply can_claim_alloc_spec in Hc as (_ & Hcl & _).
+  unfold claim_key. rewrite Hn, Hid. cbn. rewrite <- Hcl. eauto.
+Qed.
+
+Definition put_new (p : Z) (cl : gmap (Z * Z) claim) (news : list (Z * claim)) : gmap (Z * Z) claim :=
+  fold_left (fun m n => <[ (p, fst n) := snd n ]> m) news cl.
+
+Lemma apply_new_claims_spec cl al p news space ev cl' al' space' ev' :
+  apply_new_claims cl al p news space ev = Ok (cl', al', space', ev') ->
+  NoDup (map fst news) /\ (forall n, In n news -> cl !! (p, fst n) = None) /\
+  cl' = put_new p cl news /\ al' = del_all al (map claim_key news) /\
+  space' = space + sumZ (map (fun n => c_size (snd n)) news) /\
+  ev' = ev ++ map (fun n => EvClaim (fst n)) news.
+Proof.
+  revert cl al space ev. induction news as [|[id c] r IH]; intros cl al space ev H; cbn in H.
+  - injection H as <- <- <- <-. cbn. splits; auto; try lia.
+    + constructor.
+    + rewrite app_nil_r. reflexivity.
+  - destruct (cl !! (p, id)) eqn:Ecl; [discriminate|].
+    apply IH in H as (Hnd & Habs & Hcl & Hal & Hsp & Hev). cbn. splits.
+    + constructor; [|exact Hnd]. intros Hin. apply in_map_iff in Hin as (n & Hn & Hin).
+      specialize (Habs n Hin). rewrite Hn, lookup_insert in Habs. discriminate.
+    + intros n [<-|Hin]; [exact Ecl|]. specialize (Habs n Hin).
+      destruct (decide (fst n = id)) as [Heq|Hne].
+      * rewrite Heq, lookup_insert in Habs. discriminate.
+      * rewrite lookup_insert_ne in Habs by congruence. exact Habs.
+    + exact Hcl.
+    + exact Hal.
+    + unfold sumZ in *. lia.
+    + rewrite Hev, <- app_assoc. reflexivity.
+Qed.
+
+Lemma put_new_cons p cl n r : put_new p cl (n :: r) = put_new p (<[ (p, fst n) := snd n ]> cl) r.
+Proof. reflexivity. Qed.
+
+Lemma put_new_lookup_other p cl news k :
+  (forall n, In n news -> k <> (p, fst n)) -> put_new p cl news !! k = cl !! k.
+Proof.
+  revert cl. induction news as [|n r IH]; intros cl Hk; [reflexivity|].
+  rewrite put_new_cons.
+  rewrite IH by (intros; apply Hk; right; assumption).
+  rewrite lookup_insert_ne; [reflexivity|]. intros Heq. apply (Hk n); [left; reflexivity|congruence].
+Qed.
+
+Lemma put_new_lookup_in p cl news n :
+  NoDup (map fst news) -> In n news -> put_new p cl news !! (p, fst n) = Some (snd n).
+Proof.
+  revert cl. induction news as [|n0 r IH]; intros cl Hnd Hin; [destruct Hin|].
+  cbn in Hnd. inversion Hnd as [|? ? Hnin Hnd']; subst. rewrite put_new_cons. destruct Hin as [->|Hin].
+  - rewrite put_new_lookup_other.
+    + apply lookup_insert.
+    + intros m Hm Heq. apply Hnin. apply in_map_iff. exists m. split; [congruence|exact Hm].
+  - apply IH; assumption.
+Qed.
+
+(* invariant of the sector-group loop: K = keys (client, id) of the allocations claimed so far *)
+Record pg_inv (al0 : gmap (Z * Z) alloc) (cl0 : gmap (Z * Z) claim) (p e : Z) (G : sgroup -> Prop)
+    (K : list (Z * Z)) (acc : claim_acc) : Prop := {
+  pg_nodup : NoDup (map snd K);
+  pg_allocs : ca_allocs acc = del_all al0 K;
+  pg_total : ca_total acc = vsum a_size al0 K;
+  pg_evs : ca_evs acc = map (fun k => EvClaim (snd k)) K;
+  pg_wit : forall c id, In (c, id) K ->
+     exists g ac a, G g /\ In ac (sg_claims g) /\ ac_id ac = id /\ ac_client ac = c /\
+       al0 !! (c, id) = Some a /\ can_claim_alloc ac p a e (sg_expiry g) = true /\
+       ca_claims acc !! (p, id) = Some (mk_claim p e (sg_sector g) a);
+  pg_mono : forall k v, cl0 !! k = Some v -> ca_claims acc !! k = Some v;
+  pg_new : forall k v, ca_claims acc !! k = Some v ->
+     cl0 !! k = Some v \/ exists id, k = (p, id) /\ In id (map snd K) /\ cl0 !! k = None;
+}.
+
+Lemma pg_inv_init al0 cl0 p e G :
+  pg_inv al0 cl0 p e G []
+    {| ca_claims := cl0; ca_allocs := al0; ca_codes := []; ca_spaces := []; ca_total := 0; ca_evs := [] |}.
+Proof.
+  constructor; cbn; auto.
+  - constructor.
+  - intros c id [].
+Qed.
+
+Lemma Forall2_In_r {A B} (P : A -> B -> Prop) l1 l2 y :
+  Forall2 P l1 l2 -> In y l2 -> exists x, In x l1 /\ P x y.
+Proof.
+  induction 1 as [|a b l1' l2' Hab HF IH]; intros Hin; [destruct Hin|].
+  destruct Hin as [<-|Hin].
+  - exists a. split; [left; reflexivity|exact Hab].
+  - destruct (IH Hin) as (x & Hx & Hp). exists x. split; [right; exact Hx|exact Hp].
+Qed.
+
+Lemma pg_inv_fail al0 cl0 p e G K acc k :
+  pg_inv al0 cl0 p e G K acc ->
+  pg_inv al0 cl0 p e G K
+    {| ca_claims := ca_claims acc; ca_allocs := ca_allocs acc; ca_codes := ca_codes acc ++ [k];
+       ca_spaces := ca_spaces acc; ca_total := ca_total acc; ca_evs := ca_evs acc |}.
+Proof. intros [A B C D E F H]. constructor; cbn; auto. Qed.
+
+Lemma LNoDup_app {A} (l1 l2 : list A) :
+  NoDup l1 -> NoDup l2 -> (forall x, In x l1 -> In x l2 -> False) -> NoDup (l1 ++ l2).
+Proof.
+  induction l1 as [|a r IH]; intros H1 H2 Hd; cbn; [exact H2|].
+  inversion H1 as [|? ? Hn H1']; subst. constructor.
+  - intros Hin. apply in_app_or in Hin as [Hin|Hin]; [contradiction|].
+    apply (Hd a); [left; reflexivity|exact Hin].
+  - apply IH; auto. intros x Hx1 Hx2. apply (Hd x); [right; exact Hx1|exact Hx2].
+Qed.
+
+Lemma classic_in_news p (news : list (Z * claim)) (k : Z * Z) :
+  (exists n, In n news /\ k = (p, fst n)) \/ (forall n, In n news -> k <> (p, fst n)).
+Proof.
+  induction news as [|n r IH].
+  - right. intros n [].
+  - destruct (decide (k = (p, fst n))) as [->|Hne].
+    + left. exists n. split; [left; reflexivity|reflexivity].
+    + destruct IH as [(m & Hm & ->)|Hno].
+      * left. exists m. split; [right; exact Hm|reflexivity].
+      * right. intros m [<-|Hm]; [exact Hne|apply Hno; exact Hm].
+Qed.
+
+Lemma pg_inv_group al0 cl0 p e (G : sgroup -> Prop) K acc g news cl al space ev :
+  G g ->
+  pg_inv al0 cl0 p e G K acc ->
+  group_new_claims (ca_allocs acc) p e (sg_sector g) (sg_expiry g) (sg_claims g) = Ok news ->
+  apply_new_claims (ca_claims acc) (ca_allocs acc) p news 0 (ca_evs acc) = Ok (cl, al, space, ev) ->
+  pg_inv al0 cl0 p e G (K ++ map claim_key news)
+    {| ca_claims := cl; ca_allocs := al; ca_codes := ca_codes acc ++ [OK];
+       ca_spaces := ca_spaces acc ++ [space]; ca_total := ca_total acc + space; ca_evs := ev |}.
+Proof.
+  intros HG [Hnd Hal Htot Hev Hwit Hmono Hnew] Hgn Hap.
+  apply group_new_claims_spec in Hgn.
+  apply apply_new_claims_spec in Hap as (Hnd2 & Habs & -> & -> & -> & ->).
+  (* every new entry: its allocation is in al0, outside K *)
+  assert (Hkey : forall n, In n news ->
+            exists c a, In c (sg_claims g) /\ group_ok (ca_allocs acc) p e (sg_sector g) (sg_expiry g) c n /\
+                        al0 !! claim_key n = Some a /\ a_size a = c_size (snd n) /\
+                        claim_key n = (ac_client c, ac_id c) /\ ~ In (claim_key n) K /\
+                        ca_allocs acc !! claim_key n = Some a).
+  { intros n Hn. destruct (Forall2_In_r _ _ _ _ Hgn Hn) as (c & Hc & Hok).
+    destruct (group_ok_key _ _ _ _ _ _ _ Hok) as (a & Ha & Hsz & Hk).
+    pose proof Ha as Ha'. rewrite Hal, del_all_lookup in Ha'.
+    destruct (decide (claim_key n ∈ K)) as [|Hnk]; [discriminate|].
+    exists c, a. splits; auto. intros Hin. apply Hnk, elem_of_list_In. exact Hin. }
+  assert (Hsnd : map snd (map claim_key news) = map fst news).
+  { rewrite map_map. apply map_ext. intros [i c]. reflexivity. }
+  constructor; cbn [ca_claims ca_allocs ca_total ca_evs].
+  - rewrite map_app, Hsnd. apply LNoDup_app; [exact Hnd|exact Hnd2|].
+    intros id Hid1 Hid2.
+    apply in_map_iff in Hid1 as ([c i] & Hi & HinK). cbn in Hi. subst i.
+    apply in_map_iff in Hid2 as (n & Hn & Hinn).
+    destruct (Hwit c id HinK) as (g0 & ac & a & _ & _ & _ & _ & _ & _ & Hcl).
+    specialize (Habs n Hinn). rewrite Hn in Habs. congruence.
+  - rewrite Hal, del_all_app. reflexivity.
+  - rewrite vsum_app, Htot. f_equal. unfold vsum. rewrite map_map. rewrite Z.add_0_l. f_equal.
+    apply map_ext_in. intros n Hn. destruct (Hkey n Hn) as (c & a & _ & _ & Ha & Hsz & _).
+    rewrite Ha. cbn. lia.
+  - rewrite Hev, map_app, map_map. f_equal.
+  - intros c id Hin. apply in_app_or in Hin as [Hin|Hin].
+    + destruct (Hwit c id Hin) as (g0 & ac & a & H1 & H2 & H3 & H4 & H5 & H6 & H7).
+      exists g0, ac, a. splits; auto.
+      rewrite put_new_lookup_other; [exact H7|].
+      intros n Hn Heq. injection Heq as Heq. specialize (Habs n Hn). rewrite <- Heq in Habs. congruence.
+    + apply in_map_iff in Hin as (n & Hk & Hn).
+      destruct (Hkey n Hn) as (c0 & a & Hc0 & Hok & Ha & Hsz & Hkk & HnK & _).
+      rewrite Hkk in Hk. injection Hk as <- <-.
+      destruct Hok as (Hid & a' & Ha' & Hcc & Hsn).
+      assert (a' = a).
+      { rewrite Hal, del_all_lookup in Ha'. destruct (decide ((ac_client c0, ac_id c0) ∈ K)); [discriminate|].
+        rewrite <- Hkk in Ha'. congruence. }
+      subst a'. exists g, c0, a. splits; auto.
+      * rewrite <- Hkk. exact Ha.
+      * rewrite <- Hid, <- Hsn. apply put_new_lookup_in; assumption.
+  - intros k v Hk. rewrite put_new_lookup_other; [apply Hmono; exact Hk|].
+    intros n Hn ->. specialize (Habs n Hn). rewrite (Hmono _ _ Hk) in Habs. discriminate.
+  - intros k v Hk.
+    destruct (classic_in_news p news k) as [(n & Hn & ->)|Hnot].
+    + right. exists (fst n). splits; auto.
+      * rewrite map_app, Hsnd. apply in_or_app. right. apply in_map. exact Hn.
+      * specialize (Habs n Hn). destruct (cl0 !! (p, fst n)) eqn:E0; [|reflexivity].
+        rewrite (Hmono _ _ E0) in Habs. discriminate.
+    + rewrite put_new_lookup_other in Hk by exact Hnot.
+      destruct (Hnew k v Hk) as [Hl|(id & -> & Hid & Hn0)]; [left; exact Hl|].
+      right. exists id. splits; auto. rewrite map_app. apply in_or_app. left. exact Hid.
+Qed.
+
+Lemma process_groups_inv al0 cl0 p e (G : sgroup -> Prop) gs :
+  (forall g, In g gs -> G g) ->
+  forall K acc acc', pg_inv al0 cl0 p e G K acc -> process_groups p e gs acc = Ok acc' ->
+  exists K', pg_inv al0 cl0 p e G (K ++ K') acc'.
+Proof.
+  induction gs as [|g rest IH]; intros HG K acc acc' Hinv H; cbn in H.
+  - injection H as <-. exists []. rewrite app_nil_r. exact Hinv.
+  - destruct (group_new_claims (ca_allocs acc) p e (sg_sector g) (sg_expiry g) (sg_claims g)) as [news|k] eqn:Egn.
+    + unfold rbind in H.
+      destruct (apply_new_claims (ca_claims acc) (ca_allocs acc) p news 0 (ca_evs acc)) as [[[[cl al] space] ev]|] eqn:Eap;
+        [|discriminate].
+      eapply IH in H.
+      * destruct H as (K' & HK'). exists (map claim_key news ++ K'). rewrite app_assoc. exact HK'.
+      * intros g0 Hg0. apply HG. right. exact Hg0.
+      * eapply pg_inv_group; eauto. apply HG. left. reflexivity.
+    + eapply IH in H.
+      * exact H.
+      * intros g0 Hg0. apply HG. right. exact Hg0.
+      * apply pg_inv_fail. exact Hinv.
+Qed.
+
+(* ---------- remove_all: the removal loop of the two remove_expired methods ---------- *)
+Lemma remove_all_spec {A} (m : gmap (Z * Z) A) owner ids acc m' out :
+  remove_all m owner ids acc = Some (m', out) ->
+  NoDup ids /\ (forall id, In id ids -> is_Some (m !! (owner, id))) /\
+  m' = del_all m (map (pair owner) ids) /\
+  exists vs, out = acc ++ vs /\ Forall2 (fun id v => m !! (owner, id) = Some v) ids vs.
+Proof.
+  revert m acc. induction ids as [|id r IH]; intros m acc H; cbn in H.
+  - injection H as <- <-. splits; auto.
+    + constructor.
+    + intros id [].
+    + exists []. rewrite app_nil_r. split; [reflexivity|constructor].
+  - destruct (m !! (owner, id)) as [x|] eqn:Ex; [|discriminate].
+    apply IH in H as (Hnd & Hpres & -> & vs & -> & HF).
+    assert (Hnin : ~ In id r).
+    { intros Hin. destruct (Hpres id Hin) as [y Hy]. rewrite lookup_delete in Hy. discriminate. }
+    splits.
+    + constructor; assumption.
+    + intros i [<-|Hi]; [eauto|]. destruct (Hpres i Hi) as [y Hy].
+      rewrite lookup_delete_ne in Hy; [eauto|]. intros [= ->]. contradiction.
+    + reflexivity.
+    + exists (x :: vs). rewrite <- app_assoc. split; [reflexivity|]. constructor; [exact Ex|].
+      clear - HF Hnin. induction HF as [|i v r' vs' Hiv HF IH]; constructor.
+      * rewrite lookup_delete_ne in Hiv; [exact Hiv|]. intros [= ->]. apply Hnin. left. reflexivity.
+      * apply IH. intros Hin. apply Hnin. right. exact Hin.
+Qed.
+
+Lemma Forall2_vsum {A} (f : A -> Z) (m : gmap (Z * Z) A) owner ids vs :
+  Forall2 (fun id v => m !! (owner, id) = Some v) ids vs ->
+  sumZ (map f vs) = vsum f m (map (pair owner) ids).
+Proof.
+  induction 1 as [|i v r vs' Hiv HF IH]; [reflexivity|].
+  unfold vsum in *. cbn [map]. rewrite !sumZ_cons, IH, Hiv. reflexivity.
+Qed.
+
+Lemma NoDup_map_pair (owner : Z) (ids : list Z) : NoDup ids -> NoDup (map (pair owner) ids).
+Proof.
+  induction 1 as [|i r Hn Hnd IH]; cbn; constructor; auto.
+  intros Hin. apply in_map_iff in Hin as (j & [= ->] & Hj). contradiction.
+Qed.
+
+(* ---------- insert_allocs ---------- *)
+Lemma insert_allocs_lookup al client first ars k :
+  insert_allocs al client first ars !! k =
+    match k with
+    | (c, i) =>
+        if decide (c = client /\ first <= i < first + Z.of_nat (length ars))
+        then option_map (mk_alloc client) (nth_error ars (Z.to_nat (i - first)))
+        else al !! k
+    end.
+Proof.
+  revert al first. induction ars as [|r rest IH]; intros al first; destruct k as [c i]; cbn [insert_allocs length].
+  - destruct (decide _) as [[_ Hr]|]; [lia|reflexivity].
+  - rewrite IH. destruct (decide (c = client /\ first + 1 <= i < first + 1 + Z.of_nat (length rest))) as [[-> Hr]|Hn].
+    + destruct (decide _) as [_|Hn2]; [|lia].
+      replace (Z.to_nat (i - first)) with (S (Z.to_nat (i - (first + 1)))) by lia. reflexivity.
+    + destruct (decide (c = client /\ first <= i < first + Z.of_nat (S (length rest)))) as [[-> Hr]|Hn2].
+      * assert (i = first) by lia. subst i. rewrite lookup_insert.
+        replace (Z.to_nat (first - first)) with O by lia. reflexivity.
+      * rewrite lookup_insert_ne; [reflexivity|]. intros [= -> ->]. apply Hn2. split; [reflexivity|lia].
+Qed.
+
+Lemma insert_allocs_asum al client first ars :
+  (forall c i, first <= i -> al !! (c, i) = None) ->
+  asum (insert_allocs al client first ars) = asum al + sumZ (map rq_size ars).
+Proof.
+  revert al first. induction ars as [|r rest IH]; intros al first Hfresh; cbn [insert_allocs map].
+  - unfold sumZ; cbn. lia.
+  - rewrite IH.
+    + unfold asum. rewrite msum_insert_new by (apply Hfresh; lia). rewrite sumZ_cons. cbn. lia.
+    + intros c i Hi. rewrite lookup_insert_ne by (intros [= -> ->]; lia). apply Hfresh. lia.
+Qed.
+
+Lemma seqZ_In first n i : In i (seqZ first n) <-> first <= i < first + Z.of_nat n.
+Proof.
+  revert first. induction n as [|n IH]; intros first; cbn [seqZ].
+  - split; [intros []|lia].
+  - cbn [In]. rewrite IH. lia.
+Qed.
+
+Lemma seqZ_NoDup first n : NoDup (seqZ first n).
+Proof.
+  revert first. induction n as [|n IH]; intros first; cbn; constructor; auto.
+  rewrite seqZ_In. lia.
+Qed.
+
+(* ---------- claims whose only change is a larger term_max ---------- *)
+Definition claim_ext (v v' : claim) : Prop := v' = with_tmax v (c_tmax v') /\ c_tmax v <= c_tmax v'.
+
+Definition claims_rel (cl cl' : gmap (Z * Z) claim) : Prop :=
+  forall k, match cl' !! k with
+            | Some v' => exists v, cl !! k = Some v /\ claim_ext v v'
+            | None => cl !! k = None
+            end.
+
+Lemma claim_ext_refl v : claim_ext v v.
+Proof. split; [destruct v; reflexivity|lia]. Qed.
+
+Lemma claim_ext_trans a b c : claim_ext a b -> claim_ext b c -> claim_ext a c.
+Proof.
+  intros [H1 H2] [H3 H4]. split; [|lia]. rewrite H3. rewrite H1 at 1. destruct a; reflexivity.
+Qed.
+
+Lemma claims_rel_refl cl : claims_rel cl cl.
+Proof. intros k. destruct (cl !! k) eqn:E; [eexists; split; [reflexivity|apply claim_ext_refl]|reflexivity]. Qed.
+
+Lemma claims_rel_trans a b c : claims_rel a b -> claims_rel b c -> claims_rel a c.
+Proof.
+  intros H1 H2 k. specialize (H1 k). specialize (H2 k). destruct (c !! k) as [v''|].
+  - destruct H2 as (v' & Hb & He2). rewrite Hb in H1. destruct H1 as (v & Ha & He1).
+    exists v. split; [exact Ha|eapply claim_ext_trans; eauto].
+  - rewrite H2 in H1. exact H1.
+Qed.
+
+Lemma claims_rel_insert cl k v v' :
+  cl !! k = Some v -> claim_ext v v' -> claims_rel cl (<[ k := v' ]> cl).
+Proof.
+  intros Hk He j. destruct (decide (j = k)) as [->|Hn].
+  - rewrite lookup_insert. eauto.
+  - rewrite lookup_insert_ne by congruence. destruct (cl !! j) eqn:E; [|reflexivity].
+    eexists; split; [reflexivity|apply claim_ext_refl].
+Qed.
+
+Definition ext_ok (cl : gmap (Z * Z) claim) (e : Z) (r : ereq) (u : Z * claim) : Prop :=
+  fst u = ex_claim r /\
+  exists c, cl !! (ex_provider r, ex_claim r) = Some c /\ check_extension e r c = OK /\
+            snd u = with_tmax c (ex_tmax r).
+
+Lemma check_extensions_spec cl e ers ups :
+  check_extensions cl e ers = Ok ups -> Forall2 (ext_ok cl e) ers ups.
+Proof.
+  revert ups. induction ers as [|r rest IH]; intros ups H; cbn in H.
+  - injection H as <-. constructor.
+  - rinv H. injection H as <-. apply negb_false_iff, Z.eqb_eq in E0. constructor.
+    + split; [reflexivity|]. eexists; eauto.
+    + apply IH. reflexivity.
+Qed.
+
+Lemma check_extension_ok e r c :
+  check_extension e r c = OK ->
+  ex_tmax r <= e + MAXIMUM_VERIFIED_ALLOCATION_TERM - c_tstart c /\ c_tmax c < ex_tmax r /\
+  e <= c_tstart c + c_tmax c.
+Proof.
+  unfold check_extension. intros H. rinv H.
+  apply Z.ltb_ge in E, E1. apply Z.leb_gt in E0. lia.
+Qed.
+
+Lemma put_claims_snoc cl ups u :
+  put_claims cl (ups ++ [u]) = <[ (c_provider (snd u), fst u) := snd u ]> (put_claims cl ups).
+Proof. unfold put_claims. rewrite fold_left_app. destruct u. reflexivity. Qed.
+
+Lemma put_claims_rel cl ups :
+  (forall u, In u ups -> exists c, cl !! (c_provider (snd u), fst u) = Some c /\ claim_ext c (snd u)) ->
+  claims_rel cl (put_claims cl ups).
+Proof.
+  induction ups as [|u r IH] using rev_ind; intros Hu.
+  - apply claims_rel_refl.
+  - rewrite put_claims_snoc. intros k.
+    assert (Hr : claims_rel cl (put_claims cl r)) by (apply IH; intros; apply Hu, in_or_app; left; assumption).
+    destruct (Hu u) as (c & Hc & He); [apply in_or_app; right; left; reflexivity|].
+    destruct (decide (k = (c_provider (snd u), fst u))) as [->|Hn].
+    + rewrite lookup_insert. eauto.
+    + rewrite lookup_insert_ne by congruence. apply Hr.
+Qed.
+
+Lemma ext_ok_claim_ext cl e r u :
+  (forall p i c, cl !! (p, i) = Some c -> c_provider c = p) ->
+  ext_ok cl e r u -> exists c, cl !! (c_provider (snd u), fst u) = Some c /\ claim_ext c (snd u).
+Proof.
+  intros Hprov (Hid & c & Hc & Hk & Hu). apply check_extension_ok in Hk as (_ & Hlt & _).
+  exists c. rewrite Hu, Hid. cbn. rewrite (Hprov _ _ _ Hc). split; [exact Hc|].
+  split; [reflexivity|cbn; lia].
+Qed.
+
+Lemma extend_terms_rel cl caller terms codes ev cl' codes' ev' :
+  extend_terms cl caller terms codes ev = (cl', codes', ev') -> claims_rel cl cl'.
+Proof.
+  revert cl codes ev. induction terms as [|[[p i] tm] rest IH]; intros cl codes ev H; cbn in H.
+  - injection H as <- _ _. apply claims_rel_refl.
+  - destruct (MAXIMUM_VERIFIED_ALLOCATION_TERM <? tm); [eapply IH; eauto|].
+    destruct (cl !! (p, i)) as [c|] eqn:Ec; [|eapply IH; eauto].
+    destruct (negb (c_client c =? caller)); [eapply IH; eauto|].
+    destruct (tm <? c_tmax c) eqn:Et; [eapply IH; eauto|].
+    apply Z.ltb_ge in Et. apply IH in H. eapply claims_rel_trans; [|exact H].
+    apply (claims_rel_insert _ _ c); [exact Ec|]. split; [reflexivity|cbn; lia].
+Qed.
+
+Lemma del_all_lookup_Some {A} (cl : gmap (Z * Z) A) ks : forall k v, del_all cl ks !! k = Some v -> cl !! k = Some v.
+Proof.
+  intros k v. rewrite del_all_lookup. destruct (decide (k ∈ ks)); [discriminate|auto].
+Qed.
+
+(* ---------- effect of the composite functions ---------- *)
+Definition burn_opt (t : token) (o x : Z) (t' : token) : Prop :=
+  (x = 0 /\ t' = t) \/ tk_burn t o (dc2tok x) = Ok t'.
+
+Lemma burn_opt_intro t o x t' :
+  (if x =? 0 then Ok t else tk_burn t o (dc2tok x)) = Ok t' -> burn_opt t o x t'.
+Proof.
+  destruct (x =? 0) eqn:E.
+  - apply Z.eqb_eq in E. intros [= <-]. left. auto.
+  - intros H. right. exact H.
+Qed.
+
+Lemma tk_effect_refl t : tk_effect t t 0.
+Proof. constructor; auto; lia. Qed.
+
+Lemma burn_opt_spec t o x t' :
+  burn_opt t o x t' ->
+  tk_effect t t' (- dc2tok x) /\ allow t' = allow t /\
+  minted t' = minted t /\ burnt t' = burnt t + dc2tok x /\
+  (forall j, balance_of t' j = if decide (j = o) then balance_of t o - dc2tok x else balance_of t j).
+Proof.
+  intros [[-> ->]|H].
+  - unfold dc2tok. cbn. splits; auto using tk_effect_refl; try lia.
+    intros j. destruct (decide (j = o)) as [->|]; lia.
+  - apply tk_burn_spec in H as (_ & _ & He & Hm & Hb & Hbal & Hal). splits; auto.
+Qed.
+
+Lemma receiver_hook_spec st e from am p st' ids ev :
+  receiver_hook st e from am p = Ok (st', ids, ev) ->
+  exists ars ers ups,
+    p = PReqs ars ers /\ forallb (valid_areq (wld st) e) ars = true /\
+    Forall2 (ext_ok (claims (reg st)) e) ers ups /\
+    sumZ (map rq_size ars) + sumZ (map (fun u => c_size (snd u)) ups) = tok2dc am /\
+    burn_opt (tok st) VR (sumZ (map (fun u => c_size (snd u)) ups)) (tok st') /\
+    wld st' = wld st /\ verifiers (reg st') = verifiers (reg st) /\ proposals (reg st') = proposals (reg st) /\
+    allocs (reg st') = insert_allocs (allocs (reg st)) from (next_id (reg st)) ars /\
+    claims (reg st') = put_claims (claims (reg st)) ups /\
+    next_id (reg st') = next_id (reg st) + Z.of_nat (length ars) /\
+    ids = seqZ (next_id (reg st)) (length ars) /\
+    ev = map EvAlloc ids ++ map (fun u => EvClaimUpdated (fst u)) ups.
+Proof.
+  unfold receiver_hook. intros H. destruct p as [|ars ers]; [discriminate|].
+  destruct (negb (forallb (valid_areq (wld st) e) ars)) eqn:Ev; [discriminate|].
+  apply negb_false_iff in Ev.
+  apply rbind_ok in H as (ups & Hups & H).
+  assert (Hmap : forall (l : list (Z * claim)), map (fun '(_, c) => c_size c) l = map (fun u => c_size (snd u)) l).
+  { intros l. apply map_ext. intros [? ?]. reflexivity. }
+  rewrite !Hmap in H.
+  destruct (negb (_ =? tok2dc am)) eqn:Et; [discriminate|].
+  apply negb_false_iff, Z.eqb_eq in Et.
+  apply rbind_ok in H as (t1 & Ht1 & H).
+  injection H as <- <- <-.
+  exists ars, ers, ups. cbn. splits; auto.
+  - apply check_extensions_spec. exact Hups.
+  - apply burn_opt_intro. exact Ht1.
+  - f_equal. apply map_ext. intros [? ?]. reflexivity.
+Qed.
+
+(* ---------- the reachable-state invariant ---------- *)
+Definition allocs_wf (r : registry) : Prop :=
+  (forall c i a, allocs r !! (c, i) = Some a -> a_client a = c /\ 1 <= i < next_id r) /\
+  (forall c c' i a a', allocs r !! (c, i) = Some a -> allocs r !! (c', i) = Some a' -> c = c').
+
+Definition claims_wf (r : registry) : Prop :=
+  forall p i c, claims r !! (p, i) = Some c -> c_provider c = p /\ 1 <= i < next_id r.
+
+Definition noallow (t : token) : Prop := forall o, allow t !! (VR, o) = None.
+
+Record reg_inv (st : state) : Prop := {
+  ri_tok : tok_inv (tok st);
+  ri_noallow : noallow (tok st);
+  ri_allocs : allocs_wf (reg st);
+  ri_claims : claims_wf (reg st);
+  ri_next : 1 <= next_id (reg st);
+  ri_bal : balance_of (tok st) VR = dc2tok (asum (allocs (reg st)));
+}.
+
+Definition world_ok (w : world) : Prop := exists_ w VR = false.
+
+Lemma init_inv w : reg_inv (init w).
+Proof.
+  constructor; cbn.
+  - unfold tok_inv; cbn. unfold bsum. rewrite msum_empty. splits; try lia. intros k v. rewrite lookup_empty. discriminate.
+  - intros o. apply lookup_empty.
+  - split; cbn; intros *; rewrite lookup_empty; discriminate.
+  - intros p i c. cbn. rewrite lookup_empty. discriminate.
+  - lia.
+  - unfold balance_of, asum; cbn. rewrite lookup_empty, msum_empty. reflexivity.
+Qed.
+
+Lemma hook_registry r e ars ers ups from :
+  allocs_wf r -> claims_wf r -> 1 <= next_id r ->
+  Forall2 (ext_ok (claims r) e) ers ups ->
+  let r' := {| verifiers := verifiers r; proposals := proposals r;
+               allocs := insert_allocs (allocs r) from (next_id r) ars;
+               claims := put_claims (claims r) ups;
+               next_id := next_id r + Z.of_nat (length ars) |} in
+  allocs_wf r' /\ claims_wf r' /\ 1 <= next_id r' /\
+  asum (allocs r') = asum (allocs r) + sumZ (map rq_size ars) /\
+  claims_rel (claims r) (claims r').
+Proof.
+  intros [Hal Huq] Hcl Hn HF r'.
+  assert (Hfresh : forall c i, next_id r <= i -> allocs r !! (c, i) = None).
+  { intros c i Hi. destruct (allocs r !! (c, i)) eqn:E; [|reflexivity]. apply Hal in E. lia. }
+  assert (Hrel : claims_rel (claims r) (put_claims (claims r) ups)).
+  { apply put_claims_rel. intros u Hu. destruct (Forall2_In_r _ _ _ _ HF Hu) as (rq & _ & Hok).
+    eapply ext_ok_claim_ext; [|exact Hok]. intros p i c Hc. apply (Hcl _ _ _ Hc). }
+  splits.
+  - split; cbn [allocs next_id r'].
+    + intros c i a. rewrite insert_allocs_lookup.
+      destruct (decide _) as [[-> Hr]|_].
+      * destruct (nth_error ars _); cbn; [|discriminate]. intros [= <-]. cbn. lia.
+      * intros E. apply Hal in E. lia.
+    + intros c c' i a a'. rewrite !insert_allocs_lookup.
+      destruct (decide (c = from /\ _)) as [[-> Hr]|Hn1]; destruct (decide (c' = from /\ _)) as [[-> Hr']|Hn2]; auto.
+      * intros _ E. apply Hal in E. lia.
+      * intros E _. apply Hal in E. lia.
+      * apply Huq.
+  - intros p i c Hc. cbn [claims next_id r'] in *. specialize (Hrel (p, i)). rewrite Hc in Hrel.
+    destruct Hrel as (v & Hv & He & _). apply Hcl in Hv as [Hp Hi]. rewrite He. cbn. split; [exact Hp|lia].
+  - cbn. lia.
+  - cbn [allocs r']. apply insert_allocs_asum. exact Hfresh.
+  - exact Hrel.
+Qed.
+
+Lemma dc2tok_add a b : dc2tok (a + b) = dc2tok a + dc2tok b.
+Proof. unfold dc2tok. lia. Qed.
+Lemma dc2tok_sub a b : dc2tok (a - b) = dc2tok a - dc2tok b.
+Proof. unfold dc2tok. lia. Qed.
+
+Lemma hook_inv st0 t1 e from am p st' ids ev :
+  reg_inv st0 ->
+  tk_effect (tok st0) t1 0 -> noallow t1 ->
+  balance_of t1 VR = balance_of (tok st0) VR + am -> valid_amount am = true ->
+  receiver_hook (set_tok st0 t1) e from am p = Ok (st', ids, ev) ->
+  reg_inv st' /\ wld st' = wld st0.
+Proof.
+  intros [It Ia Ial Icl In_ Ib] He Hna Hb Hv H.
+  apply receiver_hook_spec in H as (ars & ers & ups & -> & Hva & HF & Hsum & Hbo & Hw & Hver & Hpr & Hal & Hcl & Hnx & -> & ->).
+  cbn [set_tok tok reg wld] in *.
+  apply burn_opt_spec in Hbo as (Hbe & Hballow & _ & _ & Hbbal).
+  destruct (hook_registry (reg st0) e ars ers ups from Ial Icl In_ HF) as (W1 & W2 & W3 & W4 & W5).
+  cbn [allocs claims next_id] in *.
+  split; [|exact Hw].
+  assert (Hreg : reg st' = {| verifiers := verifiers (reg st0); proposals := proposals (reg st0);
+                              allocs := insert_allocs (allocs (reg st0)) from (next_id (reg st0)) ars;
+                              claims := put_claims (claims (reg st0)) ups;
+                              next_id := next_id (reg st0) + Z.of_nat (length ars) |}).
+  { destruct (reg st'); cbn in *. congruence. }
+  constructor.
+  - eapply tk_effect_inv; [exact Hbe|]. eapply tk_effect_inv; [exact He|exact It].
+  - intros o. rewrite Hballow. apply Hna.
+  - rewrite Hreg. exact W1.
+  - rewrite Hreg. exact W2.
+  - rewrite Hreg. exact W3.
+  - rewrite Hreg. cbn [allocs]. rewrite W4, Hbbal. destruct (decide (VR = VR)); [|congruence].
+    rewrite Hb, Ib. apply valid_amount_spec in Hv as [_ Hv]. rewrite Hv, <- Hsum.
+    rewrite !dc2tok_add. lia.
+Qed.
+
+(* ---------- expiration.rs ---------- *)
+Lemma insert_sortedZ_In x y l : In x (insert_sortedZ y l) <-> x = y \/ In x l.
+Proof.
+  induction l as [|z r IH]; cbn.
+  - intuition.
+  - destruct (y <=? z); cbn; rewrite ?IH; intuition.
+Qed.
+
+Lemma sortZ_In x l : In x (sortZ l) <-> In x l.
+Proof.
+  induction l as [|y r IH]; cbn; [tauto|]. rewrite insert_sortedZ_In, IH. intuition.
+Qed.
+
+Lemma find_expired_In {A} (f : A -> Z) (m : gmap (Z * Z) A) owner e id :
+  In id (find_expired f m owner e) -> exists x, m !! (owner, id) = Some x /\ f x <= e.
+Proof.
+  unfold find_expired. rewrite sortZ_In. intros Hin.
+  apply elem_of_list_In, elem_of_list_omap in Hin as ([[o i] x] & Hx & Hsome).
+  apply elem_of_map_to_list in Hx.
+  destruct ((o =? owner) && (f x <=? e)) eqn:E; [|discriminate].
+  injection Hsome as ->. apply andb_true_iff in E as [E1 E2].
+  apply Z.eqb_eq in E1. apply Z.leb_le in E2. subst o. eauto.
+Qed.
+
+Lemma successes_all_ok ids : successes ids (map (fun _ => OK) ids) = ids.
+Proof. induction ids as [|i r IH]; cbn; [reflexivity|]. rewrite IH. reflexivity. Qed.
+
+Lemma successes_check_In {A} (f : A -> Z) (m : gmap (Z * Z) A) owner e ids id :
+  In id (successes ids (check_expired f m owner e ids)) ->
+  exists x, m !! (owner, id) = Some x /\ f x <= e.
+Proof.
+  induction ids as [|i r IH]; cbn; [intros []|].
+  destruct (m !! (owner, i)) as [x|] eqn:Ex; cbn.
+  - destruct (f x <=? e) eqn:El; cbn.
+    + intros [<-|Hin]; [apply Z.leb_le in El; eauto|auto].
+    + auto.
+  - auto.
+Qed.
+
+Definition to_remove_of {A} (f : A -> Z) (m : gmap (Z * Z) A) owner e (ids : list Z) : list Z :=
+  match ids with
+  | [] => find_expired f m owner e
+  | _ => successes ids (check_expired f m owner e ids)
+  end.
+
+Lemma to_remove_of_In {A} (f : A -> Z) (m : gmap (Z * Z) A) owner e ids id :
+  In id (to_remove_of f m owner e ids) -> exists x, m !! (owner, id) = Some x /\ f x <= e.
+Proof.
+  destruct ids; [apply find_expired_In|apply successes_check_In].
+Qed.
+
+Lemma remove_expired_allocations_spec st e client ids st' r ev :
+  remove_expired_allocations st e client ids = Ok (st', r, ev) ->
+  let rm := to_remove_of a_exp (allocs (reg st)) client e ids in
+  let K := map (pair client) rm in
+  NoDup rm /\ client <> VR /\ hook_code (wld st) client = OK /\
+  tk_transfer (tok st) VR client (dc2tok (vsum a_size (allocs (reg st)) K)) = Ok (tok st') /\
+  wld st' = wld st /\
+  reg st' = {| verifiers := verifiers (reg st); proposals := proposals (reg st);
+               allocs := del_all (allocs (reg st)) K; claims := claims (reg st);
+               next_id := next_id (reg st) |} /\
+  ev = map EvAllocRemoved rm.
+Proof.
+  unfold remove_expired_allocations. intros H.
+  set (cc := match ids with
+             | [] => _
+             | _ => _
+             end) in H.
+  assert (Hcc : successes (fst cc) (snd cc) = to_remove_of a_exp (allocs (reg st)) client e ids).
+  { subst cc. destruct ids; cbn [fst snd to_remove_of]; [apply successes_all_ok|reflexivity]. }
+  destruct cc as [considered codes]. cbn [fst snd] in Hcc. rewrite Hcc in H.
+  destruct (remove_all _ _ _ _) as [[al removed]|] eqn:Erm; [|discriminate].
+  apply remove_all_spec in Erm as (Hnd & Hpres & -> & vs & -> & HF). cbn [app] in *.
+  rewrite (Forall2_vsum a_size _ _ _ _ HF) in H.
+  apply rbind_ok in H as ([[st2 x] y] & Hdc & H). injection H as <- <- <-.
+  unfold dc_transfer in Hdc.
+  rewrite Z.eqb_refl, orb_true_r in Hdc. cbn [negb] in Hdc.
+  apply rbind_ok in Hdc as (t1 & Ht1 & Hdel). unfold deliver in Hdel.
+  destruct (client =? VR) eqn:Ecv.
+  - unfold receiver_hook in Hdel. discriminate.
+  - apply Z.eqb_neq in Ecv. destruct (hook_code _ client =? OK) eqn:Eh; [|discriminate].
+    apply Z.eqb_eq in Eh. injection Hdel as <- _ _. cbn in *. splits; auto.
+Qed.
+
+Lemma claim_allocations_spec st e c gs aon st' r ev :
+  claim_allocations st e c gs aon = Ok (st', r, ev) ->
+  is_miner (wld st) c = true /\
+  exists K acc,
+    pg_inv (allocs (reg st)) (claims (reg st)) c e (fun g => In g gs) K acc /\
+    burn_opt (tok st) VR (ca_total acc) (tok st') /\ wld st' = wld st /\
+    reg st' = {| verifiers := verifiers (reg st); proposals := proposals (reg st);
+                 allocs := ca_allocs acc; claims := ca_claims acc; next_id := next_id (reg st) |} /\
+    ev = ca_evs acc /\
+    r = enc_list (ca_codes acc) ++ enc_list (ca_spaces acc) /\
+    (aon = true -> forallb (fun k => k =? OK) (ca_codes acc) = true).
+Proof.
+  unfold claim_allocations. intros H.
+  destruct (negb (is_miner (wld st) c)) eqn:Em; [discriminate|]. apply negb_false_iff in Em.
+  split; [exact Em|].
+  destruct gs as [|g0 gs0]; [discriminate|]. set (gs := g0 :: gs0) in *.
+  apply rbind_ok in H as (acc & Hpg & H).
+  destruct (aon && existsb (fun k => negb (k =? OK)) (ca_codes acc)) eqn:Ea; [discriminate|].
+  apply rbind_ok in H as (t1 & Ht1 & H). injection H as <- <- <-.
+  eapply (process_groups_inv (allocs (reg st)) (claims (reg st)) c e (fun g => In g gs)) in Hpg;
+    [|auto|apply pg_inv_init].
+  destruct Hpg as (K & HK). cbn [app] in HK.
+  exists K, acc. cbn. splits; auto.
+  - apply burn_opt_intro. exact Ht1.
+  - intros ->. cbn in Ea. clear - Ea. induction (ca_codes acc) as [|k r IH]; cbn in *; [reflexivity|].
+    apply orb_false_iff in Ea as [E1 E2]. apply negb_false_iff in E1. rewrite E1. cbn. auto.
+Qed.
+
+Lemma remove_expired_claims_spec st e provider ids st' r ev :
+  remove_expired_claims st e provider ids = Ok (st', r, ev) ->
+  let rm := to_remove_of claim_expiration (claims (reg st)) provider e ids in
+  NoDup rm /\ tok st' = tok st /\ wld st' = wld st /\
+  reg st' = {| verifiers := verifiers (reg st); proposals := proposals (reg st);
+               allocs := allocs (reg st); claims := del_all (claims (reg st)) (map (pair provider) rm);
+               next_id := next_id (reg st) |} /\
+  ev = map EvClaimRemoved rm.
+Proof.
+  unfold remove_expired_claims. intros H.
+  set (cc := match ids with
+             | [] => _
+             | _ => _
+             end) in H.
+  assert (Hcc : successes (fst cc) (snd cc) = to_remove_of claim_expiration (claims (reg st)) provider e ids).
+  { subst cc. destruct ids; cbn [fst snd to_remove_of]; [apply successes_all_ok|reflexivity]. }
+  destruct cc as [considered codes]. cbn [fst snd] in Hcc. rewrite Hcc in H.
+  destruct (remove_all _ _ _ _) as [[cl removed]|] eqn:Erm; [|discriminate].
+  apply remove_all_spec in Erm as (Hnd & Hpres & -> & _).
+  injection H as <- <- <-. cbn. splits; auto.
+Qed.
+
+Lemma NoDup_map_snd_keys (K : list (Z * Z)) : NoDup (map snd K) -> NoDup K.
+Proof.
+  induction K as [|k r IH]; cbn; intros H; constructor; inversion H; subst; auto.
+  intros Hin. apply H2. apply in_map. exact Hin.
+Qed.
+
+(* ---------- preservation of the invariant by every message ---------- *)
+Definition op_caller (o : op) : Z :=
+  match o with
+  | AddVerifier c _ _ | RemoveVerifier c _ | AddClient c _ _ | RemoveDataCap c _ _ _ _ _ _
+  | Transfer _ c _ _ _ | TransferFrom _ c _ _ _ _ | ClaimAllocs _ c _ _ | RemoveExpAllocs _ c _ _
+  | RemoveExpClaims _ c _ _ | ExtendTerms c _ | GetClaims c _ _ | Burn c _ | BurnFrom c _ _
+  | IncAllowance c _ _ | DecAllowance c _ _ | RevokeAllowance c _ => c
+  end.
+
+Lemma reg_inv_frame st st' :
+  reg_inv st -> tok_inv (tok st') -> noallow (tok st') ->
+  balance_of (tok st') VR = balance_of (tok st) VR ->
+  allocs (reg st') = allocs (reg st) -> next_id (reg st') = next_id (reg st) ->
+  claims_wf (reg st') -> reg_inv st'.
+Proof.
+  intros [It Ia [Ial Iuq] Icl In_ Ib] Ht Hn Hb Hal Hnx Hcl. constructor; auto.
+  - split; rewrite Hal, ?Hnx; auto.
+  - lia.
+  - rewrite Hb, Hal. exact Ib.
+Qed.
+
+Lemma claims_wf_same r r' :
+  claims r' = claims r -> next_id r' = next_id r -> claims_wf r -> claims_wf r'.
+Proof. intros Hc Hn H p i c. rewrite Hc, Hn. apply H. Qed.
+
+Lemma claims_wf_rel r r' :
+  claims_rel (claims r) (claims r') -> next_id r' = next_id r -> claims_wf r -> claims_wf r'.
+Proof.
+  intros Hrel Hn H p i c Hc. specialize (Hrel (p, i)). rewrite Hc in Hrel.
+  destruct Hrel as (v & Hv & He & _). apply H in Hv as [Hp Hi]. rewrite He, Hn. cbn. auto.
+Qed.
+
+Lemma noallow_other (al al' : gmap (Z * Z) Z) (owner operator : Z) :
+  owner <> VR -> (forall k, k <> (owner, operator) -> al' !! k = al !! k) ->
+  (forall o, al !! (VR, o) = None) -> (forall o, al' !! (VR, o) = None).
+Proof. intros Hne Hk Ha o. rewrite Hk; [apply Ha|]. intros [= Heq _]. congruence. Qed.
+
+Lemma change_allowance_other al owner operator d k :
+  k <> (owner, operator) -> change_allowance al owner operator d !! k = al !! k.
+Proof.
+  intros Hk. unfold change_allowance. destruct (d =? 0); [reflexivity|].
+  unfold set_or_delete. destruct (_ =? 0).
+  - rewrite lookup_delete_ne by congruence. reflexivity.
+  - rewrite lookup_insert_ne by congruence. reflexivity.
+Qed.
+
+Lemma use_allowance_owner al operator owner a al' :
+  (forall o, al !! (VR, o) = None) -> operator <> owner ->
+  use_allowance al operator owner a = Some al' -> owner <> VR.
+Proof.
+  intros Hna Hne H. apply use_allowance_spec in H as (_ & Hnz & _). intros ->.
+  apply (Hnz Hne). rewrite Hna. reflexivity.
+Qed.
+
+Lemma exists_not_VR w x : world_ok w -> exists_ w x = true -> x <> VR.
+Proof. unfold world_ok. intros Hw Hx ->. congruence. Qed.
+
+Lemma inv_add_verifier st c a al st' r ev :
+  add_verifier st c a al = Ok (st', r, ev) -> reg_inv st -> reg_inv st' /\ wld st' = wld st.
+Proof.
+  unfold add_verifier. intros H I. rinv H. injection H as <- _ _. split; [|reflexivity].
+  apply (reg_inv_frame st); auto; try apply I.
+Qed.
+
+Lemma inv_remove_verifier st c a st' r ev :
+  remove_verifier st c a = Ok (st', r, ev) -> reg_inv st -> reg_inv st' /\ wld st' = wld st.
+Proof.
+  unfold remove_verifier. intros H I. rinv H. injection H as <- _ _. split; [|reflexivity].
+  apply (reg_inv_frame st); auto; try apply I.
+Qed.
+
+Lemma fold_insert_noallow (to : Z) (ops : list Z) (al : gmap (Z * Z) Z) :
+  to <> VR -> (forall o, al !! (VR, o) = None) ->
+  forall o, fold_left (fun al o => <[ (to, o) := INFINITE_ALLOWANCE ]> al) ops al !! (VR, o) = None.
+Proof.
+  intros Hne. revert al. induction ops as [|x r IH]; intros al Ha o; cbn; [apply Ha|].
+  apply IH. intros o'. rewrite lookup_insert_ne; [apply Ha|]. intros [= Heq _]. congruence.
+Qed.
+
+Lemma inv_add_client st c a al st' r ev :
+  add_verified_client st c a al = Ok (st', r, ev) -> world_ok (wld st) ->
+  reg_inv st -> reg_inv st' /\ wld st' = wld st.
+Proof.
+  unfold add_verified_client. intros H Hw I. rinv H.
+  apply negb_false_iff in E0. pose proof (exists_not_VR _ _ Hw E0) as Hne.
+  injection H as <- _ _. split; [|reflexivity].
+  apply tk_mint_spec in E5 as (_ & He & _ & _ & Hbal & Hallow).
+  apply (reg_inv_frame st); cbn; auto; try apply I.
+  - eapply tk_effect_inv; [exact He|apply I].
+  - intros o. rewrite Hallow. apply fold_insert_noallow; [exact Hne|apply I].
+  - rewrite Hbal. destruct (decide (VR = a)); [congruence|reflexivity].
+Qed.
+
+Lemma inv_remove_data_cap st c cl am v1 s1 v2 s2 st' r ev :
+  remove_data_cap st c cl am v1 s1 v2 s2 = Ok (st', r, ev) ->
+  reg_inv st -> reg_inv st' /\ wld st' = wld st.
+Proof.
+  unfold remove_data_cap. intros H I. rinv H; apply Z.eqb_neq in E3.
+  injection H as <- _ _. split; [|reflexivity].
+  apply burn_opt_intro, burn_opt_spec in E8 as (He & Hallow & _ & _ & Hbal).
+  apply (reg_inv_frame st); cbn; auto; try apply I.
+  - eapply tk_effect_inv; [exact He|apply I].
+  - intros o. rewrite Hallow. apply I.
+  - rewrite Hbal. destruct (decide (VR = cl)); [congruence|reflexivity].
+Qed.
